@@ -410,6 +410,46 @@ func c03Run(e *core.Env) {
 			}
 		}
 	}
+	// Part A': roots whose conditions are raised in several places (the rounding of the approximation, the late
+	// exactness check, the subnormal range): operands 1+2*10^-7 and 4+4*10^-7 (inexact, but every guard digit of the
+	// approximation is zero) scaled into and out of a narrow exponent range, every trap set of the full lattice
+	{
+		// the lattice sample plus every pair of conditions (a condition raised late matters when it is the only trapped one
+		// raised, or when the other trapped one is raised early)
+		rootSets := append([]apd.Condition{}, some...)
+		for i := 0; i < 12; i++ {
+			for j := i; j < 12; j++ {
+				rootSets = append(rootSets, 1<<uint(i)|1<<uint(j))
+			}
+		}
+		var rx []Operand
+		for _, cs := range []string{"10000002", "40000004", "99999998", "100000002", "400000004", "999999998", "1000000000000002", "27000000081", "2", "4", "27"} {
+			for _, ex := range []int32{-7, -47, -48, -55, -56, 33} {
+				rx = append(rx, DecJ{Coef: cs, Exp: ex}.Op())
+			}
+		}
+		// precisions that keep the root 1.00000001 / 1.000000000000001 whole (no digit lost by the final rounding,
+		// Inexact comes from the exactness check alone) in a range where the scaled operands have subnormal roots that lose no digit at Etiny (Etiny = -18 - p + 1 lies below the root's exponent)
+		rc := []CtxCase{MkCtx(3, -18, 18, apd.RoundHalfEven, 0), MkCtx(12, -18, 18, apd.RoundHalfUp, 0), MkCtx(20, -18, 18, apd.RoundHalfEven, 0), MkCtx(9, -6143, 6144, apd.RoundHalfEven, 0)}
+		for ix := range rx {
+			for _, op := range []string{"Sqrt", "Cbrt"} {
+				idx++
+				if !e.Mine(idx) {
+					continue
+				}
+				for _, cc := range rc {
+					e.State()
+					cls, n, ft, msg := c03Lattice(op, rx[ix], nil, -1, cc, rootSets)
+					e.TransOnly(n)
+					e.Outcome(cls, strings.HasSuffix(cls, "/none"))
+					if msg != "" {
+						a := mkCase(op, rx[ix], nil, cc)
+						e.Fail(op, "lattice", trapCase{A: a, Traps: uint32(ft)}, a.String()+fmt.Sprintf(" traps=%s: ", ref.FlagNames(int(ft)))+msg)
+					}
+				}
+			}
+		}
+	}
 	// Part B: explicit-state search of the ErrDecimal machine
 	trapsB := []apd.Condition{0, apd.Inexact, apd.DefaultTraps}
 	var alphabet []edStep
@@ -521,7 +561,7 @@ func init() {
 	core.Register(&core.Prop{
 		ID:    "C03",
 		Title: "Traps turn raised conditions into errors and never change or hide results",
-		Rule:  "Part A: every (operation x operands x context) case is executed under the empty trap set and under every trap set of the lattice (80 sets, all 4096 on a core of cases / everywhere for single-rounding operations in the thorough tier); trapped => error, no error => identical result and flags, single-rounding: error iff trapped or system limit with the result delivered alongside. Part B: explicit-state BFS of the ErrDecimal machine (state = error set, accumulated Flags, current trap set) over 21 wrappers x 7 argument tuples + 4 SetTraps + 3 PresetFlags pseudo-steps (user writes to the exported Ctx.Traps / Flags fields) x 3 initial trap sets to depth 3 plus all length-2 sequences, each transition compared with a two-field model that calls the Context operation of the same name. Non-trivial = the untrapped run raises at least one condition",
+		Rule:  "Part A: every (operation x operands x context) case is executed under the empty trap set and under every trap set of the lattice (80 sets, all 4096 on a core of cases / everywhere for single-rounding operations in the thorough tier); trapped => error, no error => identical result and flags, single-rounding: error iff trapped or system limit with the result delivered alongside. Part A': Sqrt/Cbrt of 66 operands whose conditions are raised in several places (coefficients 1+2e-7, 1+2e-8, 1+2e-15, ... scaled into and out of the range [-18,18]) under the lattice sample plus all 78 singleton and pair trap sets x 4 contexts (p = 3, 9, 12, 20). Part B: explicit-state BFS of the ErrDecimal machine (state = error set, accumulated Flags, current trap set) over 21 wrappers x 7 argument tuples + 4 SetTraps + 3 PresetFlags pseudo-steps (user writes to the exported Ctx.Traps / Flags fields) x 3 initial trap sets to depth 3 plus all length-2 sequences, each transition compared with a two-field model that calls the Context operation of the same name. Non-trivial = the untrapped run raises at least one condition",
 		Bounds: func(tier string) string {
 			return fmt.Sprintf("Part A: %d operands (special alphabet + finite + package limits) x 22 operations x 6 contexts x (80 | 4096) trap sets; Part B: %d-letter alphabet, depth 3 with state merging + %d unmerged length-2 sequences x 3 trap sets", len(c03Operands()), len(edWrappers)*len(edTuples), len(edWrappers)*len(edTuples)*len(edWrappers)*len(edTuples))
 		},
